@@ -271,27 +271,34 @@ def run(ctx):
                                             "magic>=1 rebased on the wrapper's offset", 4, "A"))
 
 
-def wrapper_offset_rule(ctx, r):
+def magic_arms(ctx):
+    """{magic: (nested per-format decoder, dispatching call)} read from the guard facts of the dispatch returns."""
+    import re
     prog = ctx.prog
     dm = ctx.func("kafkacodec:KafkaCodec._decode_message")
-    # dispatch: which nested function handles which magic
     cf = ctx.cfg(dm)
     arms = {}
     for n in cf.nodes:
         if n.kind == "stmt" and isinstance(n.stmt, ast.Return) and isinstance(n.stmt.value, ast.Call):
             g = prog.resolve_callable(dm, n.stmt.value.func)
             if g is not None and g.parent is dm:
-                facts = ctx.facts(dm)[n.id]
-                for mag in (0, 1):
-                    if ("magic == %d" % mag, True) in facts:
-                        arms[mag] = (g, n.stmt.value)
+                for t, pol in ctx.facts(dm)[n.id]:
+                    m = re.match(r"^\w+ == (\d+)$", t)
+                    if m and pol:
+                        arms[int(m.group(1))] = (g, n.stmt.value)
     need(0 in arms and 1 in arms, "magic dispatch of _decode_message not recognised")
+    return dm, arms
+
+
+def wrapper_offset_rule(ctx, r):
+    prog = ctx.prog
+    dm, arms = magic_arms(ctx)
     for mag, (g, call) in sorted(arms.items()):
         # the parameter receiving the wrapper's offset
         params = g.params
         wparam = None
         for i, a in enumerate(call.args):
-            if isinstance(a, ast.Name) and a.id == "offset" and i < len(params):
+            if isinstance(a, ast.Name) and a.id == dm.params[2] and i < len(params):
                 wparam = params[i]
         need(wparam, "wrapper offset not passed to %s" % g.qname)
         tainted_funcs = set()
@@ -322,9 +329,39 @@ def wrapper_offset_rule(ctx, r):
                             "format 0 wrapper must yield the inner (absolute) offsets unchanged", where(g, y),
                             facts=["inner=%s wrapper=%s" % (dep_inner, dep_wrapper)])
                 else:
-                    r.check(dep_wrapper, key + " [magic1 %s]" % codec,
+                    # the rebase must use the LAST inner offset (wrapper offset = absolute offset of the last inner
+                    # message; inner offsets have gaps after compaction, so a count-based base is wrong)
+                    helper = None
+                    for x in ast.walk(it):
+                        if isinstance(x, ast.Call) and isinstance(x.func, ast.Name) and x.func.id in g.nested:
+                            helper = g.nested[x.func.id]
+                    scope = helper if helper is not None else g
+                    ys = [x for x in ast.walk(scope.node) if isinstance(x, ast.Yield) and isinstance(x.value, ast.Tuple)] if helper else [y]
+                    uses_last = False
+                    for yy in ys:
+                        closure, todo = [], [yy.value.elts[0]]
+                        seen_n = set()
+                        while todo:
+                            e = todo.pop()
+                            closure.append(e)
+                            for nm in names_in(e):
+                                if nm in seen_n:
+                                    continue
+                                seen_n.add(nm)
+                                for a in ast.walk(scope.node):
+                                    if isinstance(a, ast.Assign) and any(isinstance(t, ast.Name) and t.id == nm for t in a.targets):
+                                        todo.append(a.value)
+                        for e in closure:
+                            for x in ast.walk(e):
+                                if isinstance(x, ast.Subscript) and norm(x.slice) in ("-1",):
+                                    uses_last = True
+                                if isinstance(x, ast.Call) and call_name(x) == "max":
+                                    uses_last = True
+                    r.check(dep_wrapper and uses_last, key + " [magic1 %s]" % codec,
                             "format 1 wrapper yields inner offsets that do not depend on the wrapper's offset "
-                            "(inner offsets are relative in that format)", where(g, y),
+                            "(inner offsets are relative in that format)" if not dep_wrapper else
+                            "format 1 rebase does not use the last inner offset: absolute = wrapper - last_inner + inner; a base "
+                            "derived from the message count is wrong for wrappers with gaps (compacted topics)", where(g, y),
                             "wrapper at offset 102 with 3 inner messages yields 0,1,2; consumer then skips or "
                             "redelivers", facts=["inner=%s wrapper=%s" % (dep_inner, dep_wrapper)])
 
@@ -344,8 +381,8 @@ MUTANTS = [
     {"id": "parked-dropped", "file": "consumer.py",
      "old": "            self._msg_block_d.addCallback(lambda _: self._handle_fetch_response(responses))\n            return",
      "new": "            return", "expect": "C02.R4"},
-    {"id": "no-yield", "file": "consumer.py", "old": "                yield d\n                proc_block_begin",
-     "new": "                proc_block_begin", "expect": "C02.R2"},
+    {"id": "no-yield", "file": "consumer.py", "old": "                yield d\n                if self._start_d is None or self._start_d.called:",
+     "new": "                if self._start_d is None or self._start_d.called:", "expect": "C02.R2"},
     {"id": "fetch-unguarded", "file": "consumer.py",
      "old": "        if self._request_d:\n            log.debug(\"_do_fetch: Outstanding request: %r\", self._request_d)\n            return\n",
      "new": "", "expect": "C02.R5"},
@@ -367,6 +404,8 @@ MUTANTS = [
      "expect": "C02.R8"},
 ]
 
+MUTANTS.append({"id": "rebase-by-count", "file": "kafkacodec.py", "old": "                    base = offset - inner[-1][0]",
+                "new": "                    base = offset - (len(inner) - 1)", "expect": "C02.R8", "note": "seeded C02-2 / C05-1"})
 TWINS = [
     {"id": "rename-loop-var", "file": "consumer.py",
      "edits": [("consumer.py", "for message in resp.messages:", "for om in resp.messages:"),
